@@ -144,48 +144,138 @@ def run(ctx):
     else_raises = bool(dpaths) and all(sp.end == 'raise' for sp in dpaths)
     ctx.ob('decode-loop', 'unhandled-opcode-raises', else_raises,
            'the dispatch chain must end in a raising else branch', py.where('deserialize', chain))
-    # --- truncated input is an error: the operand reader raises at end of input, and lists read exactly `length` operands through it
-    helpers = {n.name: n for n in fn.body if isinstance(n, ast.FunctionDef)}
-    nb = helpers.get('next_byte')
-    ok_nb = False
-    if nb is not None:
+    # --- truncated input is an error: the operand reader raises at end of input, and lists read exactly `length` operands through it.
+    #     The three readers are found by role, not by name: the end-aware reader is what the loop condition calls; an operand reader
+    #     is any helper (nested function, or method of a reader object created before the loop) that calls it; a list reader is a
+    #     helper that loops over operand readers.
+    dmod = py.module('deserialize')
+    nested = {n.name: n for n in fn.body if isinstance(n, ast.FunctionDef)}
+    prelude = [st for st in fn.body if st is not loop and not isinstance(st, ast.FunctionDef) and st.lineno < loop.lineno]
+    env0 = {'interpreter': INTERP, 'data': ('param', 'data')}
+    try:
+        pre = [q for q in PyEval()._block(prelude, [PPath(env=dict(env0))]) if q.end == ('fall',)] if prelude else [PPath(env=dict(env0))]
+    except Decline as d:
+        raise AnalysisError(f'deserialize_instructions: statements before the decoding loop outside the analysed subset: {d}')
+    ctx.require(len(pre) == 1, 'deserialize_instructions: the statements before the decoding loop branch')
+    env1 = dict(pre[0].env)
+    reader_classes = {v[1][1] for v in env1.values() if isinstance(v, tuple) and v and v[0] == 'call' and v[1][0] == 'name'
+                      and v[1][1] in dmod.classes}
+
+    def func_def(fv):
+        """function value -> (FunctionDef, owner class or None)"""
+        if fv[0] == 'name':
+            g = nested.get(fv[1]) or dmod.functions.get(fv[1])
+            return (g, None) if g is not None else None
+        if fv[0] == 'attr' and fv[1][0] == 'call' and fv[1][1][0] == 'name' and fv[1][1][1] in dmod.classes:
+            g = dmod.classes[fv[1][1][1]].methods.get(fv[2])
+            return (g, dmod.classes[fv[1][1][1]]) if g is not None else None
+        return None
+
+    def callee_of(node, owner, selfname):
+        """the helper an ast call inside a reader refers to"""
+        f = node.func
+        if owner is None and isinstance(f, ast.Name):
+            return nested.get(f.id)
+        if owner is not None and isinstance(f, ast.Attribute) and isinstance(f.value, ast.Name) and f.value.id == selfname:
+            return owner.methods.get(f.attr)
+        return None
+
+    test_calls = [n for n in ast.walk(loop.test) if isinstance(n, ast.Call)]
+    ctx.require(len(test_calls) == 1, 'deserialize_instructions: the loop condition does not read the next byte through one call')
+    mb_hit = func_def(PyEval().expr(test_calls[0].func, dict(env1), []))
+    ctx.require(mb_hit is not None, 'deserialize_instructions: the reader called by the loop condition is not a helper of the module')
+    mb, mb_owner = mb_hit
+    cands = [(g, None) for g in nested.values()] + [(g, c) for cn in sorted(reader_classes) for c in [dmod.classes[cn]] for g in c.methods.values()]
+    role = {id(mb): 'MB'}
+
+    def selfname_of(g, owner):
+        return g.args.args[0].arg if owner is not None and g.args.args else None
+    for g, owner in cands:
+        if g is mb:
+            continue
+        if any(isinstance(n, ast.Call) and callee_of(n, owner, selfname_of(g, owner)) is mb for n in ast.walk(g)):
+            role[id(g)] = 'NB'
+    for g, owner in cands:
+        if id(g) in role:
+            continue
+        if any(isinstance(n, ast.Call) and role.get(id(callee_of(n, owner, selfname_of(g, owner)))) == 'NB' for n in ast.walk(g)):
+            role[id(g)] = 'RL'
+    nbs = [(g, o) for g, o in cands if role.get(id(g)) == 'NB']
+    rls = [(g, o) for g, o in cands if role.get(id(g)) == 'RL']
+    ctx.ob('decode-loop', 'operand-reader-raises-at-end', bool(nbs),
+           'no helper reads an operand through the end-aware reader: a truncated operand must be an error', where0) if not nbs else None
+    for nb, owner in nbs:
         ps = PyEval().paths(nb)
         rets = [p for p in ps if p.end[0] == 'return']
         raises = [p for p in ps if p.end[0] == 'raise']
-        src_call = ('call', ('name', 'maybe_next_byte'), (), ())
+        sn = selfname_of(nb, owner)
+        src_call = ('call', ('name', mb.name), (), ()) if owner is None else ('call', ('attr', ('param', sn), mb.name), (), ())
 
         def none_test(c):
             return c[0] == 'cmp' and c[1] in ('==', 'is') and {c[2], c[3]} == {src_call, ('const', None)}
         ok_nb = bool(rets) and all(p.end[1] == src_call and any(none_test(c) and b is False for c, b in p.conds) for p in rets) \
             and any(any(none_test(c) and b is True for c, b in p.conds) for p in raises)
-    ctx.ob('decode-loop', 'operand-reader-raises-at-end', ok_nb,
-           'next_byte must return the next byte only when there is one and raise otherwise: a truncated operand must be an error',
-           py.where('deserialize', nb or fn))
-    mb = helpers.get('maybe_next_byte')
-    ok_mb = False
-    if mb is not None:
-        ps = PyEval().paths(mb)
-        ok_mb = any(p.end == ('return', ('const', None)) for p in ps) and any(p.end[0] == 'return' and p.end[1][0] == 'sub' for p in ps)
-    ctx.ob('decode-loop', 'end-of-input-is-none', ok_mb, 'maybe_next_byte must return None exactly at end of input', py.where('deserialize', mb or fn))
-    rl = helpers.get('read_list')
-    ok_rl = False
-    if rl is not None:
-        # the elements come out of ONE iteration over range(<length>) - a for loop or a comprehension - each through next_byte
-        loops = [n for n in ast.walk(rl) if isinstance(n, ast.For)]
+        ctx.ob('decode-loop', 'operand-reader-raises-at-end' if len(nbs) == 1 else f'operand-reader-raises-at-end/{nb.name}', ok_nb,
+               f'{nb.name} must return the next byte only when there is one and raise otherwise: a truncated operand must be an error',
+               py.where('deserialize', nb))
+    ps = PyEval().paths(mb)
+    # None exactly at end of input: the only test is cursor == len(data) (or >=); otherwise data[cursor] is returned and the cursor
+    # moves on by one
+    ok_mb = len(ps) == 2 and all(p.end[0] == 'return' for p in ps)
+    if ok_mb:
+        byte_p = [p for p in ps if p.end[1][0] == 'sub']
+        none_p = [p for p in ps if p.end[1] == ('const', None)]
+        ok_mb = len(byte_p) == 1 and len(none_p) == 1
+    if ok_mb:
+        DATA, IDX = byte_p[0].end[1][1], byte_p[0].end[1][2]
+        LEN = ('call', ('name', 'len'), (DATA,), ())
+        at_end = {(('cmp', '==', IDX, LEN), True), (('cmp', '==', LEN, IDX), True), (('cmp', '>=', IDX, LEN), True), (('cmp', '<=', LEN, IDX), True),
+                  (('cmp', '<', IDX, LEN), False), (('cmp', '>', LEN, IDX), False), (('cmp', '!=', IDX, LEN), False), (('cmp', '!=', LEN, IDX), False)}
+        before = {(c, not b) for c, b in at_end}
+        steps = [e.value for e in byte_p[0].events if e.kind == 'aug' and e.value[1] == IDX] + \
+                [('Add', IDX, e.value[2][3]) for e in byte_p[0].events if e.kind == 'setattr' and ('attr', e.value[0], e.value[1]) == IDX
+                 and e.value[2][0] == 'binop' and e.value[2][1] == 'Add' and e.value[2][2] == IDX]
+        ok_mb = len(none_p[0].conds) == 1 and tuple(none_p[0].conds[0]) in at_end and len(byte_p[0].conds) == 1 \
+            and tuple(byte_p[0].conds[0]) in before and steps == [('Add', IDX, ('const', 1))] \
+            and not any(e.kind in ('aug', 'setattr', 'setitem') for e in none_p[0].events)
+    ctx.ob('decode-loop', 'end-of-input-is-none', ok_mb, f'{mb.name} must return None exactly at end of input', py.where('deserialize', mb))
+    ok_rl = bool(rls)
+    for rl, owner in rls:
+        sn = selfname_of(rl, owner)
+
+        def is_nb(n):
+            return isinstance(n, ast.Call) and role.get(id(callee_of(n, owner, sn))) == 'NB'
+        # the elements come out of ONE iteration over range(<length>) - a for loop or a comprehension - each through an operand reader
+        loops_ = [n for n in ast.walk(rl) if isinstance(n, ast.For)]
         comps = [n for n in ast.walk(rl) if isinstance(n, (ast.ListComp, ast.GeneratorExp)) and len(n.generators) == 1
-                 and not n.generators[0].ifs and isinstance(n.elt, ast.Call) and ast.unparse(n.elt.func) == 'next_byte']
+                 and not n.generators[0].ifs and is_nb(n.elt)]
         bound = None
-        if len(loops) == 1 and not comps and ast.unparse(loops[0].iter).startswith('range(') and \
-                any(isinstance(n, ast.Call) and ast.unparse(n.func) == 'next_byte' for n in ast.walk(loops[0])):
-            bound = ast.unparse(loops[0].iter)[6:-1]
-        elif len(comps) == 1 and not loops and ast.unparse(comps[0].generators[0].iter).startswith('range('):
+        if len(loops_) == 1 and not comps and ast.unparse(loops_[0].iter).startswith('range(') and any(is_nb(n) for n in ast.walk(loops_[0])):
+            bound = ast.unparse(loops_[0].iter)[6:-1]
+        elif len(comps) == 1 and not loops_ and ast.unparse(comps[0].generators[0].iter).startswith('range('):
             bound = ast.unparse(comps[0].generators[0].iter)[6:-1]
-        ok_rl = bound is not None
-        if ok_rl:
+        ok1 = bound is not None
+        if ok1:
             defs = [n for n in ast.walk(rl) if isinstance(n, ast.Assign) and isinstance(n.targets[0], ast.Name) and n.targets[0].id == bound]
-            ok_rl = len(defs) == 1 and isinstance(defs[0].value, ast.Call) and ast.unparse(defs[0].value.func) == 'next_byte'
+            ok1 = len(defs) == 1 and is_nb(defs[0].value)
+        ok_rl = ok_rl and ok1
     ctx.ob('decode-loop', 'lists-read-through-checked-reader', ok_rl,
-           'read_list must read a length with next_byte and then exactly that many operands with next_byte', py.where('deserialize', rl or fn))
+           'the list reader must read a length with the operand reader and then exactly that many operands with it',
+           py.where('deserialize', rls[0][0] if rls else fn))
+
+    ROLE_NAME = {'MB': 'maybe_next_byte', 'NB': 'next_byte', 'RL': 'read_list'}
+
+    def canon_readers(v):
+        """calls of the readers, however they are reached (nested function, bound method held in a local, method of the reader
+        object), under their role names - the rest of the analysis speaks of next_byte / read_list"""
+        if not isinstance(v, tuple) or not v:
+            return v
+        v = tuple(canon_readers(x) if isinstance(x, tuple) else x for x in v)
+        if v[0] == 'call' and isinstance(v[1], tuple):
+            hit = func_def(v[1])
+            if hit is not None and id(hit[0]) in role:
+                return ('call', ('name', ROLE_NAME[role[id(hit[0])]]), v[2], v[3])
+        return v
     # --- writer table
     writer = {}          # opcode -> [(method, case)]
     for meth in PM.INTERP_METHODS:
@@ -196,7 +286,6 @@ def run(ctx):
             if case['opcode']:
                 writer.setdefault(case['opcode'], []).append((meth, case))
     writer_emits(ctx, py, w)
-    dmod = py.module('deserialize')
 
     def resolver(call, env, _ev):
         """helper functions of the deserialize module (the body of a branch moved out of the dispatch loop): evaluated in place"""
@@ -207,7 +296,7 @@ def run(ctx):
                 return h, None
         return None
     ev = PyEval(resolver=resolver)
-    env0 = {'interpreter': INTERP, 'data': ('param', 'data')}
+    direct_mb = []
     for op in sorted(writer):
         meths = sorted({m for m, _c in writer[op]})
         tag = f'{op}'
@@ -218,9 +307,17 @@ def run(ctx):
         body, node = handled[op]
         where = py.where('deserialize', node)
         try:
-            paths = ev._block(body, [PPath(env=dict(env0))])
+            paths = ev._block(body, [PPath(env=dict(env1))])
         except Decline as d:
             raise AnalysisError(f'deserialize_instructions/{op}: outside the analysed subset: {d}')
+        for p_ in paths:
+            for e_ in p_.events:
+                e_.value = canon_readers(e_.value)
+                if e_.kind == 'ecall' and e_.value[0] == 'call' and e_.value[1] == ('name', 'maybe_next_byte'):
+                    direct_mb.append(op)
+            p_.conds = [(canon_readers(c_), b_) for c_, b_ in p_.conds]
+            if p_.end[0] in ('return', 'raise') and len(p_.end) > 1:
+                p_.end = (p_.end[0], canon_readers(p_.end[1]))
         acc = [p for p in paths if p.end[0] != 'raise']
         ctx.ob('reader-table', f'handler/{op}', bool(acc), f'the {op} branch always raises', where)
         if not acc:
@@ -309,6 +406,9 @@ def run(ctx):
                     ctx.ob('reader-types', 'MetaVar/constraint-elements', ok,
                            'the serializer writes `var.name` of each constraint element (EVar/SVar objects) but the deserializer passes '
                            'bare ints to metavar(); re-serializing the replayed call fails', where)
+    ctx.ob('decode-loop', 'handlers-read-through-checked-reader', not direct_mb,
+           f'the branch(es) {sorted(set(direct_mb))} read an operand with the end-aware reader directly: at end of input they get None instead '
+           f'of an error', where0)
     writer_lossless(ctx, py, w)
     # every handled opcode that nobody writes is harmless; report count
     ctx.analysed['writer opcodes'] = len(writer)
@@ -331,6 +431,12 @@ def seq_order(v, n_name):
     canonical forward order: ids as read from the stream; stack slots from the top downwards"""
     if v[0] == 'comp' and v[1] in ('listcomp', 'gen') and v[2][0] == 'call' and v[2][1] == ('name', 'next_byte') and len(v[3]) == 1:
         return ('ids', 'fwd')
+    if v[0] == 'comp' and v[1] in ('listcomp', 'gen') and len(v[3]) == 1 and not v[3][0][2]:
+        # [(a, b) for a, b in S] / [x for x in S]: the elements of S in order
+        names = [x.strip() for x in v[3][0][0].strip('()').split(',')]
+        same = v[2] == ('bound', names[0]) if len(names) == 1 else v[2] == ('tuple', tuple(('bound', x) for x in names))
+        if same:
+            return seq_order(v[3][0][1], n_name)
     if v[0] == 'sub' and v[1] == ISTACK and v[2][0] == 'slice':
         lo, hi = v[2][1], v[2][2]
         # stack[-(n + 1):-1]  = the n items below the top, bottom to top
